@@ -1,10 +1,23 @@
 import H3.Drv.Util
-/-! Driver engine `e2e` (C01): the specification of end-to-end fidelity, computed from the
-    scenario line alone: what the client (resp. server) application submitted on request stream
-    `q<sid>` is what the peer application must be handed — same method, target, protocol, header
-    values in the same per-name order, body = concatenation of the pieces sent, trailers — and
-    then exactly one clean end.  Transport behaviour (relay ops, credit grants, task order) does
-    not appear in the result. -/
+import H3.Model.E2E
+/-! Driver engine `e2e` (C01).
+
+    SPEC half: the specification of end-to-end fidelity, computed from the scenario line alone:
+    what the client (resp. server) application submitted on request stream `q<sid>` is what the
+    peer application must be handed — same method, target, protocol, header values in the same
+    per-name order, body = concatenation of the pieces sent, trailers — and then exactly one clean
+    end.  Transport behaviour (relay ops, credit grants, task order) does not appear in the result.
+
+    MODEL half: the composed model of `H3.E2E`: the scenario's message is turned into a `Message`
+    (method, URI parts, header list, body pieces as the `sd` ops give them, trailers), `wire m` is
+    computed with the send models, cut into chunks, and `deliver` — the `FrameStream` model under
+    the request-receive model under QPACK decoding and `Header::try_from` — is run over it.  By
+    `C01_recv_of_wire_partial` the chunking chosen here is irrelevant; by
+    `C01_interleaving_irrelevant_partial` so are the relay ops, credit grants and task order of the
+    line.  The `http` parameter is instantiated by the identity instance `echo` (every value parses
+    to itself, a built URI has its parts): that the real crate behaves like this on the scenario's
+    values is exactly the round-trip assumption of the theorems, so a difference shows up as a
+    correspondence break. -/
 namespace H3.Drv.C01
 open H3.Drv
 
@@ -14,6 +27,8 @@ structure Msg where
   body : String := ""          -- hex, concatenated
   trailers : Option (List (String × String)) := none
   sentHead : Bool := false
+  /-- the `sd` arguments one by one (hex, `-` = an empty buffer) -/
+  pieces : List String := []
 
 def parseHdrs (s : String) : List (String × String) :=
   if s == "-" || s == "" then [] else
@@ -81,7 +96,7 @@ def stepOp (st : St) (op : String) : St :=
     | some sid =>
       let parts := cmd.splitOn ":"
       let f : Msg → Msg := match parts with
-        | ["sd", h] => fun m => { m with body := hexCat m.body h }
+        | ["sd", h] => fun m => { m with body := hexCat m.body h, pieces := m.pieces ++ [h] }
         | ["st", t] => fun m => { m with trailers := some (parseHdrs t) }
         | ["sr", status] => fun m => { m with head := status, sentHead := true }
         | ["sr", status, h] => fun m => { m with head := status, headers := parseHdrs h, sentHead := true }
@@ -100,10 +115,116 @@ def expected (ops : List String) : String :=
     s!"c.q{sid}.rr=ok:{m.head}:{renderHdrs m.headers} c.q{sid}.rm={renderBody m}")
   " ".intercalate (reqLines ++ respLines)
 
+/-! ### the model half -/
+
+open H3.E2E H3.Headers
+
+/-- the identity instance of the `http` parameter -/
+def echo : Http where
+  parseScheme v := some v
+  parseAuthority v := if v.isEmpty then none else some v
+  parsePath v := some v
+  uriBuild s a p := if a.isEmpty then none else some { scheme := s, authority := some a, path := p }
+
+def strBytes (s : String) : List Nat := s.toList.map Char.toNat
+def bytesStr (b : List Nat) : String := String.ofList (b.map Char.ofNat)
+
+/-- position of the first occurrence of `pat` -/
+def findSub (pat : List Nat) : List Nat → Nat → Option Nat
+  | [], _ => none
+  | b :: r, i => if (b :: r).take pat.length == pat then some i else findSub pat r (i + 1)
+
+/-- `scheme://authority/path?query` → `uri::Parts` (the targets of the generator are in absolute
+    form; anything else is taken as a path) -/
+def uriParts (u : List Nat) : UriParts :=
+  match findSub [58, 47, 47] u 0 with
+  | some i =>
+    let rest := u.drop (i + 3)
+    let auth := rest.takeWhile (fun b => b != 47 && b != 63)
+    let pq := rest.drop auth.length
+    { scheme := some (u.take i), authority := if auth.isEmpty then none else some auth,
+      pathAndQuery := if pq.isEmpty then some [47] else some pq }
+  | none => { scheme := none, authority := none, pathAndQuery := if u.isEmpty then none else some u }
+
+def fieldLines (hs : List (String × String)) : List FieldLine :=
+  hs.map (fun p => (strBytes p.1, (parseHex p.2).getD []))
+
+/-- `Message` of a request entry of the scenario (`head` = `METHOD:<uri hex>:<proto>`) -/
+def requestOf (m : Msg) : Option Message :=
+  match m.head.splitOn ":" with
+  | [method, uri, proto] =>
+    (parseHex uri).map fun u =>
+      { head := .request (strBytes method) (uriParts u) (if proto == "-" then none else some (strBytes proto))
+        headers := fieldLines m.headers
+        pieces := m.pieces.map (fun p => (parseHex p).getD [])
+        trailers := m.trailers.map fieldLines }
+  | _ => none
+
+def responseOf (m : Msg) : Option Message :=
+  m.head.toNat?.map fun st =>
+    { head := .response st, headers := fieldLines m.headers
+      pieces := m.pieces.map (fun p => (parseHex p).getD []), trailers := m.trailers.map fieldLines }
+
+/-- the transport of the model half: at most ~32 chunks, boundaries depending on the length -/
+def chunkSize (n : Nat) : Nat := 1 + n / 32 + n % 7
+
+def mapPairs (m : HeaderMap) : List (String × String) :=
+  (hmIter m).map (fun f => (bytesStr f.1, toHex f.2))
+
+def renderUri (u : Uri) : String :=
+  let s := match u.scheme with
+    | some s => s ++ [58, 47, 47]
+    | none => []
+  toHex (s ++ u.authority.getD [] ++ u.path.getD [])
+
+def renderDelivered (pre task : String) (headCmd : String) (d : Delivered) : String :=
+  let head := match d.head with
+    | some (.request p) =>
+      let proto := match p.protocol with
+        | some x => bytesStr x
+        | none => "-"
+      s!"ok:{bytesStr p.method}:{renderUri p.uri}:{proto}:{renderHdrs (mapPairs p.headers)}"
+    | some (.response st hm) => s!"ok:{st}:{renderHdrs (mapPairs hm)}"
+    | none => "model-no-head"
+  let b := if d.body.isEmpty then "-" else toHex d.body
+  let tail := if d.cleanEnd && d.ends == 1 then
+      (match d.trailers with
+       | some (some t) => s!"trailers:{renderHdrs (mapPairs t)}"
+       | some none => "none"
+       | none => "model-no-trailers")
+    else "model-no-clean-end"
+  s!"{pre}.{task}.{headCmd}={head} {pre}.{task}.rm=body:{b}:{tail}"
+
+/-- the receiver's `max_field_section_size`: the scenarios configure none, so the default -/
+def limit : Nat := H3.Qpack.peerLimit none
+
+/-- D-01: a section of more than 24576 fields is refused by the receiver's `Header::try_from`
+    (`C01_field_count_refused`): the request is answered with a stream error H3_MESSAGE_ERROR and
+    the request task ends.  The branch is tagged; the specification half still demands delivery. -/
+def overCount (m : Message) : Bool :=
+  match headerOf m with
+  | .ok h => decide (24576 < h.wireFields.length)
+  | _ => false
+
+def modelLine (role : H3.ReqRecv.Role) (pre headCmd : String) (sid : Nat) (msg : Option Message) : String :=
+  match msg with
+  | none => s!"{pre}.q{sid}.{headCmd}=model-bad-message"
+  | some m =>
+    if overCount m && role == .server then
+      s!"{pre}.q{sid}.{headCmd}=err:stream:H3_MESSAGE_ERROR #D-01 {pre}.q{sid}.rm=no-task"
+    else
+    let w := wire m
+    renderDelivered pre s!"q{sid}" headCmd (deliver echo role limit (chunked (chunkSize w.length) w))
+
+def model (ops : List String) : String :=
+  let st := ops.foldl stepOp {}
+  let reqLines := st.reqs.map (fun (sid, m) => modelLine .server "s" "res" sid (requestOf m))
+  let respLines := st.resps.filter (·.2.sentHead) |>.map
+    (fun (sid, m) => modelLine .client "c" "rr" sid (responseOf m))
+  " ".intercalate (reqLines ++ respLines)
+
 def handle : List String → String
-  | "e2e" :: _ :: _ :: ops =>
-    let e := expected ops
-    e ++ " ## " ++ e
+  | "e2e" :: _ :: _ :: ops => model ops ++ " ## " ++ expected ops
   | _ => "bad-op"
 
 end H3.Drv.C01
